@@ -287,6 +287,7 @@ type scenario struct {
 	shards  int
 	maxSize string // "" = default
 	rlimit  int64  // >= 0: RLIMIT_FSIZE while the group runs
+	tls     bool   // the origin speaks TLS and the client uses a CONNECT tunnel
 }
 
 type env struct {
@@ -318,7 +319,7 @@ func (c pcfg) readable() map[string]any {
 func newEnv(sc scenario, base string) *env {
 	en := &env{sc: sc, res: map[string]*resource{}, dir: filepath.Join(base, "env-"+sc.name)}
 	os.RemoveAll(en.dir)
-	e, err := e2elib.Start(e2elib.Options{Backend: sc.backend, Shards: sc.shards, Dir: en.dir, Tune: func(cfg *config.Config) {
+	e, err := e2elib.Start(e2elib.Options{Backend: sc.backend, Shards: sc.shards, Dir: en.dir, TLS: sc.tls, Tune: func(cfg *config.Config) {
 		cfg.Cache.CleanupInterval.Overwrite(duration.Duration(1000 * time.Hour)) // the janitor never runs during a check
 		if sc.maxSize != "" {
 			cfg.Cache.MaxCacheSize.Overwrite(bytesize.ParseUnchecked(sc.maxSize))
@@ -408,8 +409,22 @@ type obs struct {
 var methods = []struct{ s, coq string }{{"GET", "GET"}, {"HEAD", "HEAD"}, {"POST", "POST"}, {"PUT", "OTHER"}, {"DELETE", "OTHER"}}
 
 func (en *env) request(method, path string, lines []string) obs {
-	raw := en.e.PlainRequest(method, path, append(lines, "Connection: close"), nil)
-	resp, err := en.e.DoPlain(raw, method, watchdog)
+	var resp *e2elib.Response
+	var err error
+	if en.sc.tls {
+		var c *e2elib.Conn
+		c, _, err = en.e.DialTunnel(en.e.Origin.Addr, "127.0.0.1", watchdog)
+		if err == nil {
+			err = c.Send(en.e.TunnelRequest(method, path, lines, nil), watchdog)
+			if err == nil {
+				resp, err = c.Read(method, watchdog)
+			}
+			c.Close()
+		}
+	} else {
+		raw := en.e.PlainRequest(method, path, append(lines, "Connection: close"), nil)
+		resp, err = en.e.DoPlain(raw, method, watchdog)
+	}
 	o := obs{status: -1, version: -1}
 	if err != nil {
 		o.err = err.Error()
@@ -771,7 +786,7 @@ func playHistory(en *env, r *emit.Rand, path string, nsteps int, mx mix, meta *e
 			}
 			rd := map[string]any{"request": methods[mi].s, "client_conditionals": lines, "origin_script": script, "origin_answers": ga,
 				"faults": map[string]any{"lookup_error": flt.lookupErr, "entry_removed_during_upstream": flt.vanish, "store_fails": flt.storeFail, "reget": flt.reget},
-				"seen": map[string]any{"status": o.status, "version": o.version, "body_ok": o.bodyOK, "x_cache": o.xcache, "etag": o.etag, "error": o.err, "origin_saw": ua}}
+				"seen":   map[string]any{"status": o.status, "version": o.version, "body_ok": o.bodyOK, "x_cache": o.xcache, "etag": o.etag, "error": o.err, "origin_saw": ua}}
 			readable = append(readable, rd)
 			if *flagDbg {
 				fmt.Fprintf(os.Stderr, "%s %s %v -> %d v%d %s | origin %v\n", methods[mi].s, path, lines, o.status, o.version, o.xcache, ga)
@@ -866,24 +881,27 @@ func main() {
 	var groups []group
 	if *flagProp == "C09" {
 		groups = []group{
-			{scenario{"memory-full", "memory", 1, "10B", -1}, mix{vanish: 12, drop: 6}, 40},
-			{scenario{"memory", "memory", 32, "", -1}, mix{vanish: 30, drop: 6}, 30},
-			{scenario{"file-empty", "file", 32, "", -1}, mix{vanish: 15, breakFile: 6, emptyBodies: 50, drop: 4}, 40},
-			{scenario{"file-nodir", "file", 32, "", -1}, mix{vanish: 10, breakDir: 12, drop: 4}, 25},
-			{scenario{"file-write-0", "file", 32, "", 0}, mix{vanish: 10, drop: 4}, 10},
-			{scenario{"file-write-20", "file", 32, "", 20}, mix{vanish: 10, drop: 4}, 15},
-			{scenario{"file-write-100", "file", 32, "", 100}, mix{vanish: 10, drop: 4}, 10},
+			{scenario{"memory-full", "memory", 1, "10B", -1, false}, mix{vanish: 12, drop: 6}, 110},
+			{scenario{"memory", "memory", 32, "", -1, false}, mix{vanish: 30, drop: 6}, 80},
+			{scenario{"file-empty", "file", 32, "", -1, false}, mix{vanish: 15, breakFile: 6, emptyBodies: 50, drop: 4}, 100},
+			{scenario{"memory-empty", "memory", 32, "", -1, false}, mix{vanish: 10, emptyBodies: 50, drop: 4}, 20},
+			{scenario{"memory-connect", "memory", 1, "10B", -1, true}, mix{vanish: 15, drop: 6}, 20},
+			{scenario{"file-nodir", "file", 32, "", -1, false}, mix{vanish: 10, breakDir: 12, drop: 4}, 60},
+			{scenario{"file-write-0", "file", 32, "", 0, false}, mix{vanish: 10, drop: 4}, 25},
+			{scenario{"file-write-20", "file", 32, "", 20, false}, mix{vanish: 10, drop: 4}, 40},
+			{scenario{"file-write-100", "file", 32, "", 100, false}, mix{vanish: 10, drop: 4}, 25},
 		}
 		if *flagTier == "thorough" {
 			// a write failure after every byte count of a 12-byte body
 			for n := int64(1); n < 12; n++ {
-				groups = append(groups, group{scenario{fmt.Sprintf("file-write-%d", n), "file", 32, "", n}, mix{vanish: 10, drop: 4}, 3})
+				groups = append(groups, group{scenario{fmt.Sprintf("file-write-%d", n), "file", 32, "", n, false}, mix{vanish: 10, drop: 4}, 3})
 			}
 		}
 	} else {
 		groups = []group{
-			{scenario{"memory", "memory", 32, "", -1}, mix{drop: 5}, 120},
-			{scenario{"file", "file", 32, "", -1}, mix{drop: 5}, 50},
+			{scenario{"memory", "memory", 32, "", -1, false}, mix{drop: 5}, 330},
+			{scenario{"file", "file", 32, "", -1, false}, mix{drop: 5}, 120},
+			{scenario{"memory-connect", "memory", 32, "", -1, true}, mix{drop: 5}, 30},
 		}
 	}
 	total := 0
@@ -906,7 +924,7 @@ func main() {
 			nsteps := 5 + r.Intn(8)
 			// memory-full: half of the histories start with the cache already over its limit
 			fillerHex := ""
-			if g.sc.name == "memory-full" && r.Bool() {
+			if g.sc.maxSize != "" && r.Bool() {
 				fp := fmt.Sprintf("/filler%d", i)
 				frs := &resource{cur: content{Version: 1, TagKind: "none", LMKind: "none", BodyLen: 64, CC: []string{"max-age=3600"}, Exp: freshlib.Expires{Kind: freshlib.ExpAbsent, Form: "absent"}}}
 				en.mu.Lock()
